@@ -323,15 +323,13 @@ def r4(ctx):
     for p in Interp(f).run(b, [P("timeout_secs"), P("connection_limit"), P("item_memory_limit"), P("listen_backlog")]):
         ok = all(field_of(p.ret, n) == P(n) for n in ("timeout_secs", "connection_limit", "item_memory_limit", "listen_backlog"))
         rep.check(ok, "server-config::new", "each constructor argument lands in its own field", "MemcacheServerConfig::new mixes up its (all-u32) arguments: %s" % short(p.ret, 160), b.loc())
-    # runtime builder: arg#2 of MemcacheServerConfig::new <- config.item_size_limit
-    for fn in ("create_current_thread_server", "create_threadpool_server"):
-        b = f.one("memcrs::memcache_server::runtime_builder::" + fn)
-        ok = None
-        for bb, t in b.calls():
-            if (t.callee.path or "").endswith("MemcacheServerConfig::new"):
-                # backward chase of arg 2 within the block chain: use the interpreter on a prefix is heavy; do a def-chase
-                ok = chase_mentions(b, t.args[2], ("item_size_limit",))
-        rep.check(bool(ok), "runtime_builder::%s" % fn, "MemcacheServerConfig::new(_, _, <- config.item_size_limit, _)", "%s does not pass the CLI item size limit as the server's item_memory_limit" % fn, b.loc())
+    # runtime builders: the server config's item_memory_limit <- the CLI item size limit (robust to helper extraction)
+    from rules import builderfacts
+
+    for fn in builderfacts.BUILDERS:
+        bf = builderfacts.builder_facts(ctx, fn)
+        ok = bool(bf["news"]) and all(F(P("config"), "item_size_limit") in atoms(field_of(cfg, "item_memory_limit")) for cfg, _st, _e in bf["news"])
+        rep.check(ok, "runtime_builder::%s" % fn, "server config item_memory_limit <- args.item_size_limit", "%s does not pass the CLI item size limit as the server's item_memory_limit" % fn, bf["body"].loc())
     return rep
 
 
